@@ -46,7 +46,7 @@ def bounds(tier):
 
 def has_container(names):
     """shapes whose elements live on the heap: T4 (word-typed heap) keeps their discriminants constant"""
-    return any(n in ("tuple1i", "list1", "imp1", "tuple2", "list2") for n in names)
+    return any(n in ("tuple1i", "tuple2ii", "list1", "imp1", "tuple2", "list2") for n in names)
 
 
 def cuts_for(names):
@@ -58,8 +58,13 @@ def cuts_for(names):
               r"BigInt as std::hash::Hash"]
     if "mk_float" not in txt:
         c += [r"compare_int_float", r"compare_float_int"]
+    containers = any(shapes.LEAVES[n][2] in ("tuple", "list") for n in names)
     if "mk_intfun" not in txt:
-        c += [r"compare_term_lists", r"compare_owned_term_lists", r"InternalFun as std::cmp::PartialEq"]
+        c += [r"InternalFun as std::cmp::PartialEq"]
+        if not containers:
+            # the element-wise list comparison is only cut where no shape has elements: a change that routes tuples or lists through
+            # it must be *decided*, not stopped at the cut (seed C12-m6)
+            c += [r"compare_term_lists", r"compare_owned_term_lists"]
     return c
 
 
@@ -90,7 +95,7 @@ def generate(tier, seed):
         src.append(fn(n, body))
         hs.append(Harness(n, "antisymmetry, reflexivity, a==b => cmp Equal, a==b => equal hash transcript, and BorrowedTerm "
                              "orders/equates the pair exactly as OwnedTerm, on shapes %s x %s" % (a, b),
-                          unwind=UNW, unwindset=UWS, recursion=rec_for([a, b]), cap_s=CAP, cuts=cuts_for([a, b]), typed_heap=has_container([a, b])))
+                          unwind=UNW, unwindset=UWS, recursion=rec_for([a, b]), cap_s=(900 if 'tuple2ii' in (a, b) else CAP), cuts=cuts_for([a, b]), typed_heap=has_container([a, b])))
     for a, bs in cross_groups().items():
         n = "c11_cross__%s" % a
         body = "    let (a, _ra) = %s;\n" % L[a][0]
